@@ -182,6 +182,11 @@ func (gq *Schema) AddImplementation() error {
 		}
 	}
 
+	// the type map changed: rebuild the possible-type table as a whole, before the
+	// implementations are checked (a covariant field may have a type that became a
+	// possible type of the interface field's type only now)
+	gq.possibleTypeMap = buildPossibleTypeMap(gq)
+
 	// Enforce correct interface implementations
 	for _, ttype := range gq.typeMap {
 		if ttype, ok := ttype.(*Object); ok {
@@ -193,9 +198,6 @@ func (gq *Schema) AddImplementation() error {
 			}
 		}
 	}
-
-	// the type map changed: rebuild the possible-type table as a whole
-	gq.possibleTypeMap = buildPossibleTypeMap(gq)
 
 	return nil
 }
